@@ -303,8 +303,8 @@ def gen_op(r, impl, counter, depth_left):
         axl = list(range(n)) if ax is None else [ax] if isinstance(ax, int) else ax
         for j in range(na):
             ln = shape[axl[j] % n] if j < len(axl) and -n <= axl[j] < n else 3
-            b = r.randint(0, max(0, ln - 1))
-            a = r.choice([0, 0, r.randint(b, ln + 1), -r.randint(0, 2)])
+            b = r.randint(0, max(0, ln - 1)) if r.random() < 0.85 else -r.randint(1, 2)   # slice(before, after)
+            a = r.choice([0, 0, r.randint(max(b, 0), ln + 1), -r.randint(0, 2)])
             w.append([b, a])
         return spell(r, {"k": k, "t": t, "w": w, "axes": ax, "ip": ip})
     if k == "bin":
@@ -793,6 +793,32 @@ def hash_more(ctx: Ctx, rel, names):
         ctx.log("drift guard: %s changed in %s -> quick budget escalated" % (changed[:6], rel))
 
 
+def impl_hashes(ctx: Ctx, rel, cls, methods):
+    """pad / crop / bin are preceded by typing @overload stubs of the same name, and the framework's
+    ast_hash takes the FIRST definition of a name: hash the LAST one (the implementation) as well"""
+    import ast
+    import hashlib
+    from ..common import SRC, _baseline_hashes
+    try:
+        tree = ast.parse((SRC / "quantem" / rel).read_text())
+    except Exception:  # noqa: BLE001
+        return
+    h = {}
+    for n in tree.body:
+        if isinstance(n, ast.ClassDef) and n.name == cls:
+            for m in n.body:
+                if isinstance(m, ast.FunctionDef) and m.name in methods:
+                    h["%s.%s (implementation)" % (cls, m.name)] = hashlib.sha256(ast.dump(m).encode()).hexdigest()[:16]
+    ctx.cov["source_ast_hashes"].setdefault(rel, {}).update(h)
+    base = _baseline_hashes().get(ctx.prop, {}).get(rel) or {}
+    changed = sorted(k for k in h if k in base and base[k] != h[k])
+    if changed:
+        ctx.escalated = True
+        ctx.cov.setdefault("drift", {}).setdefault(rel, [])
+        ctx.cov["drift"][rel] = sorted(set(ctx.cov["drift"][rel]) | set(changed))
+        ctx.log("drift guard: %s changed in %s -> quick budget escalated" % (changed, rel))
+
+
 def run(ctx: Ctx):
     ctx.hash_sources("core/datastructures/dataset.py",
                      ["Dataset.__init__", "Dataset.from_array", "Dataset.copy", "Dataset.pad", "Dataset.crop",
@@ -801,7 +827,8 @@ def run(ctx: Ctx):
                  ("dataset4dstem.py", "Dataset4dstem")):
         ctx.hash_sources("core/datastructures/" + f, [c + ".from_array", c + ".__init__"])
     ctx.hash_sources("core/utils/validators.py", ["ensure_valid_array", "validate_ndinfo", "validate_units"])
-    hash_more(ctx, "core/datastructures/dataset.py", ["Dataset._copy_custom_attributes"])
+    hash_more(ctx, "core/datastructures/dataset.py", ["Dataset._copy_custom_attributes", "Dataset._normalize_axes"])
+    impl_hashes(ctx, "core/datastructures/dataset.py", "Dataset", ["pad", "crop", "bin"])
     hash_more(ctx, "core/datastructures/dataset2d.py", ["Dataset2d.from_shape"])
     hash_more(ctx, "core/datastructures/dataset3d.py", ["Dataset3d.from_shape", "Dataset3d.to_dataset2d"])
     hash_more(ctx, "core/datastructures/dataset4d.py", ["Dataset4d.from_shape"])
@@ -860,7 +887,9 @@ def run(ctx: Ctx):
     #    thorough: depth 3 over the 30-operation alphabet on the 3-D seed (27 000 sequences) and
     #              depth 2 over the full 61-operation alphabet on the 3-D and the 4dstem seed (every third
     #              one on the 5-D seed)
-    if ctx.quick:
+    if __import__("os").environ.get("C03_DEV_FAST"):
+        plans = [(2, alphabet(False), SEEDS[0], 23)]
+    elif ctx.quick:
         plans = [(2, alphabet(False), SEEDS[0], 1), (2, alphabet(False), SEEDS[1], 5)]
     else:
         plans = [(3, alphabet(False), SEEDS[0], 1)] + [(2, alphabet(True), sd, 1) for sd in SEEDS[:2]] + [
